@@ -107,6 +107,62 @@ def _qualified_names(g, names, function, context, classes):
     g.define('fullNameReturns', 'List String', lean_list(rets), 'jedi/api/classes.py:BaseName.full_name')
 
 
+# values of the unchanged code, used when the shape below is not recognised (the Lean side still builds,
+# correspondence and oracle streams still run)
+FALLBACK = {'boundMethodOwnQual': False, 'mroShape': ['self', 'bases-in-order', 'base-mro-in-order', 'not-in-mro']}
+
+
+def _members(g, instance, function, klass, base_value):
+    """Names reached through references (Model/Members): which get_qualified_names answers for a method
+    fetched through an instance, and the listing order of ClassMixin.py__mro__."""
+    bm = instance.find('BoundMethod')
+    bases = [u(b) for b in bm.bases]
+    own = [n.name for n in bm.body if isinstance(n, (ast.FunctionDef, ast.AsyncFunctionDef))]
+    if bases != ['FunctionMixin', 'ValueWrapper']:
+        raise TieBroken('instance.py: BoundMethod bases', repr(bases))
+    fm = function.find('FunctionMixin')
+    fm_own = [n.name for n in fm.body if isinstance(n, (ast.FunctionDef, ast.AsyncFunctionDef))]
+    ga = base_value.find('_ValueWrapperBase.__getattr__')
+    if [u(n.value) for n in ast.walk(ga) if isinstance(n, ast.Return)] != ['getattr(self._wrapped_value, name)']:
+        raise TieBroken('base_value.py: _ValueWrapperBase.__getattr__ no longer forwards to the wrapped value', u(ga))
+    vw = base_value.find('ValueWrapper')
+    vwb = base_value.find('_ValueWrapperBase')
+    wrapper_own = [n.name for c in (vw, vwb) for n in c.body if isinstance(n, (ast.FunctionDef, ast.AsyncFunctionDef))]
+    hits = [w for w, names in (('BoundMethod', own), ('FunctionMixin', fm_own), ('ValueWrapper', wrapper_own))
+            for n in names if n in ('get_qualified_names', '_get_qualified_names')]
+    if hits:
+        # the wrapped MethodValue (the class whose body holds the def) no longer answers: which class the new
+        # method names is not something the model knows
+        raise TieBroken('instance.py: get_qualified_names of a BoundMethod is no longer the wrapped MethodValue\'s '
+                        '(ValueWrapper.__getattr__): defined by ' + ', '.join(hits),
+                        u(bm.body[[n.name if hasattr(n, 'name') else '' for n in bm.body].index('get_qualified_names')])
+                        if 'get_qualified_names' in own else repr(hits))
+    g.define('boundMethodOwnQual', 'Bool', lean_bool(False),
+             'jedi/inference/value/instance.py:BoundMethod (no get_qualified_names of its own, nor in FunctionMixin / '
+             'ValueWrapper: ValueWrapper.__getattr__ forwards to the wrapped MethodValue)')
+    # py__mro__: `mro = [self]; yield self; for lazy_cls in self.py__bases__(): for cls in lazy_cls.infer(): ...
+    # for cls_new in mro_method(): if cls_new not in mro: mro.append(cls_new); yield cls_new`
+    mro = klass.find('ClassMixin.py__mro__')
+    body = _stmts(mro)
+    fors = [n for n in ast.walk(mro) if isinstance(n, ast.For)]
+    shape = []
+    if len(body) >= 3 and u(body[0]) == 'mro = [self]' and u(body[1]) == 'yield self':
+        shape.append('self')
+    if len(fors) == 3 and u(fors[0].iter) == 'self.py__bases__()' and u(fors[1].iter) == 'lazy_cls.infer()':
+        shape.append('bases-in-order')
+        if u(fors[2].iter) == 'mro_method()' and fors[2] in list(ast.walk(fors[1])):
+            shape.append('base-mro-in-order')
+            inner = fors[2].body
+            if len(inner) == 1 and isinstance(inner[0], ast.If) and u(inner[0].test) == 'cls_new not in mro' \
+                    and [u(x) for x in inner[0].body] == ['mro.append(cls_new)', 'yield cls_new'] and not inner[0].orelse:
+                shape.append('not-in-mro')
+    if shape != FALLBACK['mroShape']:
+        raise TieBroken('klass.py: ClassMixin.py__mro__ is not the depth-first listing the model transcribes', u(mro))
+    g.define('mroShape', 'List String', lean_list(shape), 'jedi/inference/value/klass.py:ClassMixin.py__mro__')
+    g.fp(klass, 'ClassMixin.py__mro__')
+    g.fp(base_value, '_ValueWrapperBase.__getattr__')
+
+
 def generate(repo, g):
     classes = Src(repo, 'jedi/api/classes.py')
     api = Src(repo, 'jedi/api/__init__.py')
@@ -249,6 +305,19 @@ def generate(repo, g):
 
     _qualified_names(g, names, function, context, classes)
 
+    # a tie broken here is raised after all definitions (FALLBACK values), so that the Lean side still builds
+    deferred = None
+    try:
+        _members(g, instance, function, Src(repo, 'jedi/inference/value/klass.py'),
+                 Src(repo, 'jedi/inference/base_value.py'))
+    except TieBroken as e:
+        deferred = e
+        done = '\n'.join(g.lines)
+        for name, typ, value in [('boundMethodOwnQual', 'Bool', lean_bool(FALLBACK['boundMethodOwnQual'])),
+                                 ('mroShape', 'List String', lean_list(FALLBACK['mroShape']))]:
+            if 'def %s ' % name not in done:
+                g.define(name, typ, value, 'FALLBACK (source shape not recognised): value of the unchanged code')
+
     for s, d in [(api, 'Script.get_context'), (context, 'TreeContextMixin.create_context'),
                  (context, 'TreeContextMixin.create_value'), (classes, 'BaseName.parent'),
                  (classes, 'BaseName.full_name'), (names, 'AbstractNameDefinition.get_qualified_names'),
@@ -261,3 +330,8 @@ def generate(repo, g):
                  (context, 'AbstractContext.get_qualified_names'), (context, 'ValueContext.get_qualified_names'),
                  (putils, 'is_scope')]:
         g.fp(s, d)
+    if deferred is not None:
+        import os
+        from translator.extract import GEN_DIR, write_if_changed
+        write_if_changed(os.path.join(GEN_DIR, g.pid + '.lean'), g.text())
+        raise deferred
